@@ -3,7 +3,7 @@ use std::io::{self, Read};
 use std::path::Path;
 
 use super::{
-    central_header_to_zip_file_inner, read_zipfile_from_stream, spec, ZipError, ZipFile,
+    central_header_to_zip_file_inner, read_zipfile_or_end_from_stream, spec, ZipError, ZipFile,
     ZipFileData, ZipResult,
 };
 
@@ -41,12 +41,23 @@ impl<R: Read> ZipStreamReader<R> {
     /// Iteraate over the stream and extract all file and their
     /// metadata.
     pub fn visit<V: ZipStreamVisitor>(mut self, visitor: &mut V) -> ZipResult<()> {
-        while let Some(mut file) = read_zipfile_from_stream(&mut self.0)? {
-            visitor.visit_file(&mut file)?;
+        let end_signature;
+        loop {
+            match read_zipfile_or_end_from_stream(&mut self.0)? {
+                Ok(mut file) => visitor.visit_file(&mut file)?,
+                Err(signature) => {
+                    end_signature = signature;
+                    break;
+                }
+            }
+        }
+        if end_signature != spec::CENTRAL_DIRECTORY_HEADER_SIGNATURE {
+            // An archive without entries: the end record follows at once.
+            return Ok(());
         }
 
-        // `read_zipfile_from_stream` has consumed the signature of the first central
-        // directory header in order to recognise the end of the entries.
+        // The signature of the first central directory header has been consumed in order to
+        // recognise the end of the entries.
         let first = central_header_to_zip_file_inner(&mut self.0, 0, 0).map(ZipStreamFileMetadata)?;
         visitor.visit_additional_metadata(&first)?;
 
